@@ -8,8 +8,10 @@ META = {
     "text": "Deductive (unbounded): the data flow of fit_single.single_function is verified from its AST with every callee opaque: the description length returned is "
             "negloglike + codelen + aifeyn of ONE convert_params and ONE aifeyn_complexity call, the likelihood term returned is the one convert_params returned (after snapping), "
             "convert_params receives the optimiser's parameters and likelihood value, the same canonical string and the same max_param as optimise_fun, aifeyn_complexity receives "
-            "`labels` and the parameter list a0..a(max_param-1), and the string is the canonical string of the tree of `labels` (MSE: DL is NaN). Numerical agreement with the pipeline's "
-            "tables and with the closed form, and fit_from_string, are decided by the bounded stand-in (real API vs generated core_maths libraries vs closed-form WLS), not counted as proved.",
+            "`labels` and the parameter list a0..a(max_param-1), the string is the canonical string of the tree of `labels` (MSE: DL is NaN), and the caller's tmax, pmin, pmax, "
+            "try_integration, log_opt, Niter, Nconv reach the optimiser unchanged. fit_from_string hands its processed label list (the processing itself is under contract in C18), basis, likelihood "
+            "and every search setting to single_function unchanged, exactly once, and returns that call's likelihood, description length (and parameters) with the labels. Numerical agreement with the pipeline's "
+            "tables and with the closed form are decided by the bounded stand-in (real API vs generated core_maths libraries vs closed-form WLS), not counted as proved.",
     "note": "All callees are uninterpreted (their own contracts: C02, C07, C08, C10). Bounded part: linear-in-parameter trees, tolerances as in C10/C07.",
     "technique": "contract-based deductive verification of the API's data flow (AST->VC->SMT) + bounded stand-in against pipeline tables and closed forms",
 }
@@ -22,6 +24,12 @@ def check(run):
         st, failed, eng = D.verify_function(run, "fitting/fit_single.py", "single_function", (lambda rp=rp: c_fit_single.single_function_contract(rp)), timeout_ms=8000,
                                             note="verified for return_params True and False")
         failed_all += failed
+    for rp in (True, False):
+        st, failed, eng = D.verify_function(run, "fitting/fit_single.py", "fit_from_string", (lambda rp=rp: c_fit_single.ffs_forward_contract(rp)), timeout_ms=8000,
+                                            tag="hand-over, return_params=%s" % rp, note="region: the call of single_function and the returns")
+        failed_all += failed
+    if D.canary(run, "fitting/fit_single.py", "fit_from_string", (lambda: c_fit_single.ffs_forward_contract(True))) is False:
+        raise RuntimeError("canary verified: engine vacuous on the tail of fit_from_string")
     if D.canary(run, "fitting/fit_single.py", "single_function", (lambda: c_fit_single.single_function_contract(True))) is False:
         raise RuntimeError("canary verified: engine vacuous on single_function")
     found, B = _wrap.run_bounded(run, "checks.C20_bounded")
